@@ -25,7 +25,7 @@ Theorem C05_segments_are_consecutive_slices :
   forall cx f s hops buf rest ret w, buf <> [] ->
   let t := get_tcp w s in
   let k := Z.to_nat (Z.min (Z.of_nat (length buf)) (t_mss t)) in
-  let p := mk_packet PPayload 0 (firstn k buf) (t_bound t) 40 hops None (t_next_out t) (Some (DTcp s)) in
+  let p := mk_packet PPayload 0 (firstn k buf) (t_bound t) 40 hops None (t_next_out t) (Some (DTcp s (fwd_of t))) in
   let w1 := set_tcp w s (t <| t_next_out := t_next_out t + 1 |>) in
   write_loop cx (S f) s hops (buf :: rest) ret w =
     (let (w2, c1) := tcp_send_packet cx s p w1 in
